@@ -8,7 +8,10 @@ from . import joinmodel as J
 from . import c12
 from .c06 import close
 
-RULE = ("the C12 workloads (all single key columns over {None,'a','b'} up to length 5; sampled 1-3 keys by name / column / external vector, interleaved "
+from . import recompute
+
+RULE = ("[plus the shared recompute-after-history monitor: this property's operations evaluated on long-lived objects between in-place writes / renames must equal the same operations on fresh objects rebuilt from the current contents] "
+	"the C12 workloads (all single key columns over {None,'a','b'} up to length 5; sampled 1-3 keys by name / column / external vector, interleaved "
 	"groups, one-value and all-None groups, None keys, hash-colliding int keys, falsy values next to None, every combination of built-ins and "
 	"order-sensitive apply functions, two aggregated vectors sharing one name) are run through window(); the result must have the input's row "
 	"count, reproduce the key columns in row order, and give every row the value that (a) the list-search model and (b) the real aggregate() "
@@ -16,7 +19,7 @@ RULE = ("the C12 workloads (all single key columns over {None,'a','b'} up to len
 ASSUMPTIONS = c12.ASSUMPTIONS + ["window and aggregate outputs are paired by position when their column-name lists agree, otherwise only the model decides"]
 EXHAUSTIVE = {"flag": True, "scope": "all single key columns over {None,'a','b'} up to length 5 (values sampled)"}
 ANCHOR_FUNCS = ["table:Table.window", "table:Table.aggregate"]
-REQUIRED_STRATA = {"window": 800, "window-vs-aggregate": 500}
+REQUIRED_STRATA = {"recompute": 200, "window": 800, "window-vs-aggregate": 500}
 
 
 def run_window(chk, spec):
@@ -86,9 +89,11 @@ def run_window(chk, spec):
 
 
 RUNNERS = {"window": run_window}
+RUNNERS["recompute"] = recompute.runner("C13")
 
 
 def run(chk):
+	recompute.add_cases(chk, "C13")
 	rng = chk.rng
 	for spec in c12.exhaustive_specs(chk, "window"):
 		chk.case("window", spec, "window-exhaustive")
